@@ -70,11 +70,13 @@ func init() {
 
 // c09FreeText: free-text fields that may contain the separator (a password)
 // must be cut at the FIRST separator, never split on every occurrence.
-func c09FreeText(c *Ctx) {
+func c09FreeText(c *Ctx) { c09FreeTextFor(c, "C09/FREE-TEXT-SPLIT") }
+
+func c09FreeTextFor(c *Ctx, rule string) {
 	p, r := c.P, c.R
-	r.Rule("C09/FREE-TEXT-SPLIT", "a free-text header field that may legitimately contain the separator (Basic password) is taken from a first-separator cut (strings.Cut / SplitN(..,2) / Index), never from strings.Split", 1)
+	r.Rule(rule, "a free-text header field that may legitimately contain the separator (Basic password) is taken from a first-separator cut (strings.Cut / SplitN(..,2) / Index), never from strings.Split", 1)
 	f := p.Field("pkg/headers", "Authorization", "BasicPass")
-	if !r.Anchor("C09/FREE-TEXT-SPLIT", "headers.Authorization.BasicPass", f != nil) {
+	if !r.Anchor(rule, "headers.Authorization.BasicPass", f != nil) {
 		return
 	}
 	n := 0
@@ -88,13 +90,13 @@ func c09FreeText(c *Ctx) {
 		construct := "pkg/headers " + fnShort(acc.Fn) + " sets BasicPass"
 		switch {
 		case strings.HasPrefix(src, "strings.Cut") || strings.HasPrefix(src, "strings.SplitN/2") || strings.HasPrefix(src, "slice-after-index") || src == "plain":
-			r.OK("C09/FREE-TEXT-SPLIT", construct, p.Pos(st.Pos()), "password taken from "+src)
+			r.OK(rule, construct, p.Pos(st.Pos()), "password taken from "+src)
 		default:
-			r.Fail("C09/FREE-TEXT-SPLIT", construct, p.Pos(st.Pos()), "the password comes from "+src+": a password containing the separator is truncated or rejected although Marshal produces it")
+			r.Fail(rule, construct, p.Pos(st.Pos()), "the password comes from "+src+": a password containing the separator is truncated or rejected although Marshal produces it")
 		}
 	}
 	if n == 0 {
-		r.Fail("C09/FREE-TEXT-SPLIT", "pkg/headers sets BasicPass", "", "no store to Authorization.BasicPass found in pkg/headers")
+		r.Fail(rule, "pkg/headers sets BasicPass", "", "no store to Authorization.BasicPass found in pkg/headers")
 	}
 }
 
